@@ -356,3 +356,60 @@ def pick_samples(seq, n=12):
         return seq
     step = len(seq) / n
     return [seq[int(i * step)] for i in range(n)]
+
+
+# ---------------------------------------------------------------------------
+# helpers for signatures of rejected (re-)parses
+# ---------------------------------------------------------------------------
+_KEYWORDS = None
+
+
+def tok_class(spelling: str) -> str:
+    """Class of a token spelling for signatures: punctuators and keywords are
+    themselves, everything else is ID / CONST / STR."""
+    global _KEYWORDS
+    if _KEYWORDS is None:
+        from models import vocab
+
+        _KEYWORDS = set(vocab.KEYWORDS) | set(vocab.PUNCT)
+    s = spelling.strip()
+    if s in _KEYWORDS:
+        return s
+    if not s:
+        return "EOF"
+    if s[0] in "\"" or s.endswith('"'):
+        return "STR"
+    if s[0].isdigit() or s[0] in "'." or s.endswith("'"):
+        return "CONST"
+    if s[0].isalpha() or s[0] in "_$":
+        return "ID"
+    return s[:3]
+
+
+def reject_sig(text, filename=""):
+    """'reject@<innermost _parse_* frame>:<class of offending token>' for a
+    text the parser rejects (None if it is accepted)."""
+    from pycparser.c_parser import CParser, ParseError
+
+    try:
+        CParser().parse(text, filename)
+        return None
+    except ParseError as e:
+        tb = e.__traceback__
+        site = "?"
+        while tb is not None:
+            nm = tb.tb_frame.f_code.co_name
+            if nm.startswith("_parse_") and nm != "_parse_error":
+                site = nm
+            tb = tb.tb_next
+        msg = str(e)
+        m = re.search(r": before: (.*)$", msg, re.S)
+        if m:
+            what = tok_class(m.group(1))
+        else:
+            what = re.sub(r"^[^ ]*: ", "", msg)[:40]
+        return f"reject@{site}:{what}"
+    except RecursionError:
+        return "reject@RecursionError"
+    except Exception as e:  # noqa
+        return "reject@" + exc_site(e)
